@@ -48,7 +48,7 @@ def run(tier, v):
     states, trans, detail = al.design_level(
         ["AmmoFormats_exh%s.cfg" % sfx],
         ["AmmoFormats_neg_noreset.cfg", "AmmoFormats_neg_sellimit.cfg"],
-        workers=16 if thorough else 8, heap="12g" if thorough else "4g")
+        workers=16 if thorough else 8, heap="12g" if thorough else "4g", coverage=thorough)
     d = vlib.scratch()
     files = al.export_cases("AmmoFormats_export_C14%s.cfg" % sfx, d, "c14")
     b = vlib.harness_build()
@@ -84,8 +84,9 @@ def run(tier, v):
         "evaluations": total,
         "distinct_nontrivial": sum(s["from_tlc"] for s in stats),
         "rule": ("every file of 1..%d items (>= 1 entry; 3 tagged entries, header line, blank) x chosencases in {none, [t1], [t1,'t 2'], [''], [zz], [t]} x "
-                 "limit {0,1,2,5} x passes {0,1,2} x preload {off,on} x {uri, uripost, raw, json lines, json array}, exported by TLC as a set (all "
-                 "distinct); plus %d seeded random files per format with random settings" % (3 if thorough else 2, nrand)),
+                 "limit {0,1,2,5} x passes {0,1,2} x preload {off,on} x {uri, uripost, raw, json lines, json array}%s, exported by TLC as a set (all "
+                 "distinct); plus %d seeded random files per format with random settings" % (
+                     3 if thorough else 2, " x {plain layout, CRLF+blanks+no blank line after bodies+no final newline (json also pretty)}" if thorough else "", nrand)),
         "diverging_cases": bad,
         "trace_spec_states": tstates,
         "design": detail,
